@@ -190,7 +190,8 @@ Definition is_panic (r : option res) : bool := ores_eqb r (Some RPanic).
 Record track := TR {
   t_pending : option op;       (* a call that has not returned yet *)
   t_prev : nat * list id * nat * nat;   (* tokens, table, inlen, outlen after the previous step *)
-  t_acc : list id;             (* seeds whose insert returned nil, minus those whose finish returned nil *)
+  t_acc : list id;             (* seeds whose insert returned nil *)
+  t_fin : list id;             (* seeds whose finish returned nil *)
   t_sends : list id;           (* seeds of inserts / feedbacks that returned nil, in order *)
   t_got : list id;             (* what the consumer received, in order *)
   t_heldw : list id;           (* seeds a consumer received and has not fed back / finished since *)
@@ -200,14 +201,14 @@ Record track := TR {
   t_stopped : bool;            (* Stop() has returned *)
   t_panicked : bool }.
 
-Definition track0 : track := TR None (0, [], 0, 0) [] [] [] [] [] true false false false.
+Definition track0 : track := TR None (0, [], 0, 0) [] [] [] [] [] [] true false false false.
 
 Definition apply_ret (o : op) (r : res) (t : track) : track :=
   match o, r with
-  | OIns i, ROk => TR (t_pending t) (t_prev t) (i :: t_acc t) (t_sends t ++ [i]) (t_got t) (t_heldw t) (t_used t) (t_wf t) (t_frozen t) (t_stopped t) (t_panicked t)
-  | OFb i, ROk => TR (t_pending t) (t_prev t) (t_acc t) (t_sends t ++ [i]) (t_got t) (t_heldw t) (t_used t) (t_wf t) (t_frozen t) (t_stopped t) (t_panicked t)
-  | OFin i, ROk => TR (t_pending t) (t_prev t) (rem1 Nat.eqb i (t_acc t)) (t_sends t) (t_got t) (t_heldw t) (t_used t) (t_wf t) (t_frozen t) (t_stopped t) (t_panicked t)
-  | _, RPanic => TR (t_pending t) (t_prev t) (t_acc t) (t_sends t) (t_got t) (t_heldw t) (t_used t) (t_wf t) (t_frozen t) (t_stopped t) true
+  | OIns i, ROk => TR (t_pending t) (t_prev t) (i :: t_acc t) (t_fin t) (t_sends t ++ [i]) (t_got t) (t_heldw t) (t_used t) (t_wf t) (t_frozen t) (t_stopped t) (t_panicked t)
+  | OFb i, ROk => TR (t_pending t) (t_prev t) (t_acc t) (t_fin t) (t_sends t ++ [i]) (t_got t) (t_heldw t) (t_used t) (t_wf t) (t_frozen t) (t_stopped t) (t_panicked t)
+  | OFin i, ROk => TR (t_pending t) (t_prev t) (t_acc t) (i :: t_fin t) (t_sends t) (t_got t) (t_heldw t) (t_used t) (t_wf t) (t_frozen t) (t_stopped t) (t_panicked t)
+  | _, RPanic => TR (t_pending t) (t_prev t) (t_acc t) (t_fin t) (t_sends t) (t_got t) (t_heldw t) (t_used t) (t_wf t) (t_frozen t) (t_stopped t) true
   | _, _ => t
   end.
 
@@ -224,7 +225,7 @@ Definition advance (t : track) (x : sop * sobs) : track :=
   (* the call is issued *)
   let t1 := match o with
             | SCall c =>
-                TR (t_pending t) (t_prev t) (t_acc t) (t_sends t) (t_got t)
+                TR (t_pending t) (t_prev t) (t_acc t) (t_fin t) (t_sends t) (t_got t)
                    (match c with OIns _ => t_heldw t | _ => rem1 Nat.eqb (op_id c) (t_heldw t) end)
                    (match c with OIns i => i :: t_used t | _ => t_used t end)
                    (t_wf t && wf_call c t) (t_frozen t) (t_stopped t) (t_panicked t)
@@ -233,21 +234,21 @@ Definition advance (t : track) (x : sop * sobs) : track :=
   (* returns: the call's own first, then the earlier blocked call's *)
   let t2 := match o, o_res b with
             | SCall c, Some r => apply_ret c r t1
-            | SCall c, None => TR (Some c) (t_prev t1) (t_acc t1) (t_sends t1) (t_got t1) (t_heldw t1) (t_used t1) (t_wf t1) (t_frozen t1) (t_stopped t1) (t_panicked t1)
+            | SCall c, None => TR (Some c) (t_prev t1) (t_acc t1) (t_fin t1) (t_sends t1) (t_got t1) (t_heldw t1) (t_used t1) (t_wf t1) (t_frozen t1) (t_stopped t1) (t_panicked t1)
             | _, _ => t1
             end in
   let t3 := match t_pending t, o_pend b with
             | Some c, Some r =>
                 let t' := apply_ret c r t2 in
                 TR (match o, o_res b with SCall c', None => Some c' | _, _ => None end)
-                   (t_prev t') (t_acc t') (t_sends t') (t_got t') (t_heldw t') (t_used t') (t_wf t') (t_frozen t') (t_stopped t') (t_panicked t')
+                   (t_prev t') (t_acc t') (t_fin t') (t_sends t') (t_got t') (t_heldw t') (t_used t') (t_wf t') (t_frozen t') (t_stopped t') (t_panicked t')
             | _, _ => t2
             end in
   let got' := match o_got b with Some i => t_got t3 ++ [i] | None => t_got t3 end in
   let held' := match o_got b with
                | Some i => if memb Nat.eqb i (t_heldw t3) then t_heldw t3 else t_heldw t3 ++ [i]
                | None => t_heldw t3 end in
-  TR (t_pending t3) (o_tokens b, o_table b, o_inlen b, o_outlen b) (t_acc t3) (t_sends t3) got' held' (t_used t3) (t_wf t3)
+  TR (t_pending t3) (o_tokens b, o_table b, o_inlen b, o_outlen b) (t_acc t3) (t_fin t3) (t_sends t3) got' held' (t_used t3) (t_wf t3)
      (t_frozen t3 || match o with SFreeze => true | _ => false end)
      (t_stopped t3 || match o with SStop => true | _ => false end)
      (t_panicked t3).
@@ -278,13 +279,15 @@ Definition mon_accounting (c : scase) : bool :=
             end) track0 (sc_steps c).
 
 (* monitor 1 - a token is taken exactly when a seed is accepted and given back exactly when it is
-   finished: with no call in progress the tracked seeds are the accepted minus the finished ones *)
+   finished: with no call in progress, tracked seeds + finished seeds = accepted seeds (as multisets;
+   a badly behaved client may finish a seed while its insert is still in progress) *)
 Definition mon_ledger (c : scase) : bool :=
   all_steps (fun _ x t' =>
     let b := snd x in
     if negb (o_alive b) || t_panicked t' then true
     else match t_pending t' with
-         | None => nats_eqb (o_table b) (sort (t_acc t')) && (o_tokens b =? length (t_acc t'))
+         | None => nats_eqb (sort (o_table b ++ t_fin t')) (sort (t_acc t'))
+                   && (o_tokens b + length (t_fin t') =? length (t_acc t'))
          | Some _ => true
          end) track0 (sc_steps c).
 
